@@ -50,6 +50,7 @@ fn dispatch(cmd: &str, rest: &[String]) {
 		"ind-api-replay" => indicators::api_replay(rest),
 		"indparams-replay" => indicators::params_replay(rest),
 		"ind-dyn-replay" => indicators::dyn_replay(rest),
+		"result-replay" => indicators::result_replay(rest),
 		"ind-record" => indicators::record(rest),
 		"ind-prefix-record" => indicators::prefix_record(rest),
 		"soak-record" => soak::record(rest),
